@@ -134,7 +134,84 @@ func decreased(before, after map[string]Watermark) string {
 }
 
 // runImport is the body of C10.
+// runImportBulk: one interchange file with records for tens of thousands of validators (more than a hundred thousand
+// records in all) is imported into an empty database by the real binary; every key of the file must then be covered.
+func runImportBulk(t *testing.T, rc *RunCtx) {
+	ch := rc.Ch
+	pop := StdPopulation(t)
+	dir := NewRunDir(t)
+	n := 80000 + ch.Pick(20000, 0)
+	type rec struct{ slot, src, tgt int64 }
+	want := make(map[string]rec, n)
+	var sb strings.Builder
+	sb.Grow(n * 260)
+	fmt.Fprintf(&sb, `{"metadata":{"interchange_format_version":"5","genesis_validators_root":%q},"data":[`, genesisRoot)
+	for i := 0; i < n; i++ {
+		key := append(h32("bulk key", rc.Seed, i), h32("bulk key tail", rc.Seed, i)[:16]...)
+		r := rec{int64(1 + ch.Pick(1000, 0)), int64(ch.Pick(500, 0)), 0}
+		r.tgt = r.src + 1 + int64(i%7)
+		if i > 0 {
+			sb.WriteByte(',')
+		}
+		hk := hex.EncodeToString(key)
+		switch i % 5 {
+		case 3: // only blocks
+			r.src, r.tgt = -1, -1
+			fmt.Fprintf(&sb, `{"pubkey":"0x%s","signed_blocks":[{"slot":"%d"}]}`, hk, r.slot)
+		case 4: // only attestations
+			r.slot = -1
+			fmt.Fprintf(&sb, `{"pubkey":"0x%s","signed_attestations":[{"source_epoch":"%d","target_epoch":"%d"}]}`, hk, r.src, r.tgt)
+		default:
+			fmt.Fprintf(&sb, `{"pubkey":"0x%s","signed_blocks":[{"slot":"%d"}],"signed_attestations":[{"source_epoch":"%d","target_epoch":"%d"}]}`, hk, r.slot, r.src, r.tgt)
+		}
+		want[pop.KeyName(key)] = r
+	}
+	sb.WriteString("]}")
+	path := filepath.Join(ScratchRoot(), fmt.Sprintf("bulk-%d.json", dirCounter))
+	dirCounter++
+	if err := os.WriteFile(path, []byte(sb.String()), 0o600); err != nil {
+		t.Fatalf("write: %v", err)
+	}
+	defer os.Remove(path)
+	code, _, stderr := dirkCLI(t, dir, nil, "--import-slashing-protection", "--genesis-validators-root="+genesisRoot, "--slashing-protection-file="+path)
+	rc.Stats.Inc("bulk_imports", 1)
+	rc.Stats.Inc("bulk_import_keys", int64(n))
+	rc.Stats.Seen("cases", fmt.Sprintf("bulk/%d/%d", n, rc.Seed))
+	rc.Sample = map[string]any{"layer": "bulk import", "keys": n, "exit": code}
+	if code != 0 {
+		rc.Stats.Inc("imports_rejected", 1)
+		rc.Logf("bulk import of %d keys: exit %d: %s", n, code, truncate(stderr, 300))
+		return
+	}
+	after, c2, m2 := cliExport(t, pop, dir)
+	if c2 != 0 {
+		rc.Violate("C10", "store-unusable-after-import", m2, 0)
+		return
+	}
+	missing := 0
+	example := ""
+	for k, r := range want {
+		got, ok := after[k]
+		if !ok {
+			got = NoWatermark
+		}
+		if got.Slot < r.slot || got.Src < r.src || got.Tgt < r.tgt {
+			missing++
+			if example == "" {
+				example = fmt.Sprintf("key %s: file says slot %d, attestation %d>%d; recorded %v", k, r.slot, r.src, r.tgt, got)
+			}
+		}
+	}
+	if missing > 0 {
+		rc.Violate("C10", "import-dropped-protection", fmt.Sprintf("an import of %d keys reported success but %d of them are not covered afterwards, e.g. %s", n, missing, example), 0)
+	}
+}
+
 func runImport(t *testing.T, rc *RunCtx) {
+	if rc.Param("mode", "") == "bulk" {
+		runImportBulk(t, rc)
+		return
+	}
 	InitBLS()
 	ch := rc.Ch
 	pop := StdPopulation(t)
